@@ -42,6 +42,10 @@ class Oracle:
             return 'header-field-count'
         nv, nc, no, nl, nf = (int(h[H_IDX[k]]) for k in ('num_vars', 'num_algebraic_cons', 'num_objs', 'num_logical_cons', 'num_funcs'))
         nce = sum(int(x) for x in h[42:47])
+        if nv + nce > 2147483647:
+            return 'header-index-space-overflow:vars+common-exprs'
+        if nc + nl > 2147483647:
+            return 'header-index-space-overflow:algebraic+logical-cons'
         items = [nv, nc + nl, no, 1]
         stack = []      # frames: ['terms',k] ['args',k,tag] ['pl',k] ['cols',k] ['suf',k,items,isdbl] ['ce',idx]
         vals = 0
@@ -191,9 +195,10 @@ def build_cases(ck, T, cov):
         if len(b) < 20000:
             cases.append((0, -1, b, 'repo-data'))
             cases.append((1, -1, b, 'repo-data'))
-    for mode, d, tag in G.hostile_count_family(T):
-        cases.append((0, -1, d, tag))
-        cov[tag] = cov.get(tag, 0) + 1
+    for fam in (G.hostile_count_family(T), G.cumulative_header_family(), G.suffix_all_items_family()):
+        for k, (mode, d, tag) in enumerate(fam):
+            cases.append((k % 2 if not tag.startswith('hostile-count') else 0, -1, d, tag))
+            cov[tag] = cov.get(tag, 0) + 1
     modes = ['text', 'text', 'bin', 'binswap']
     for i in range(n_valid):
         mode = modes[i % 4]
@@ -253,6 +258,7 @@ def run_harness(ck, exe, ops_path, n_ops, tmpdir):
         aborts[idx] = err[:2500] + ('\n...\n' + err[-600:] if len(err) > 3100 else '')
         first = idx + 1
         if len(aborts) > 200:
+            aborts['truncated-at'] = first
             break
     return lines, aborts
 
@@ -353,6 +359,9 @@ def run(ck):
     n_ops = len(cases) + len(strtods)
     t0 = time.time()
     impl, aborts = run_harness(ck, exe, ops_path, n_ops, work)
+    truncated_at = aborts.pop('truncated-at', None)
+    if truncated_at is not None:
+        ck.log('more than 200 sanitizer aborts: ops from %d on were not run' % truncated_at)
     ck.log('harness: %d ops, %d sanitizer aborts, %.1fs' % (n_ops, len(aborts), time.time() - t0))
     t0 = time.time()
     mo = os.path.join(work, 'model.out')
@@ -401,6 +410,8 @@ def run(ck):
             ck.add_violation(sig, what, replay_obj(i, {'stderr': aborts[i], 'model': ml[:300]}))
             continue
         il = impl.get(i)
+        if il is None and truncated_at is not None and i >= truncated_at:
+            continue
         if il is None:
             ck.add_violation('harness-missing-line', 'no harness output for case %d' % i, replay_obj(i, {}), found_input=False)
             continue
@@ -440,7 +451,7 @@ def run(ck):
             v = rest.get(key, 'skip')
             if v != 'skip' and v != i_out:
                 ck.add_violation('null-handler-differs', '%s run ended %s, recorder %s on %r' % (key, v, i_out, d[:60]), replay_obj(i, {'impl': il[:600]}))
-        for key in ('prob', 'probfile'):
+        for key in ('prob', 'probfile', 'pb0', 'pb1', 'pb2', 'pbm'):
             v = rest.get(key, 'skip')
             hist_out[key + ':' + v.split(':')[0] + (':' + v.split(':')[1] if v.startswith('exc') else '')] = hist_out.get(key + ':' + v.split(':')[0] + (':' + v.split(':')[1] if v.startswith('exc') else ''), 0) + 1
             if v != 'skip' and v != i_out and not v.startswith('exc:'):
@@ -482,6 +493,8 @@ def run(ck):
     bad_strtod = 0
     for k, s in enumerate(strtods):
         j = len(cases) + k
+        if truncated_at is not None and j >= truncated_at:
+            continue
         if impl.get(j) != model[j]:
             bad_strtod += 1
             ck.add_violation('model-differs:strtod', 'strtod model differs on %r: impl %s model %s' % (s, impl.get(j), model[j]),
@@ -514,7 +527,7 @@ def run(ck):
                                'harness/h_nlread.cc recording handler + error-class mapping; checks/c02.py oracle and comparison']
 
 
-EXPECT_THEOREMS = 11
+EXPECT_THEOREMS = 12
 
 
 def replay(ck, path):
